@@ -14,8 +14,11 @@ import (
 	"os"
 	"os/exec"
 	"path/filepath"
+	"runtime"
 	"sort"
+	"strconv"
 	"strings"
+	"sync"
 	"time"
 
 	"verifsim/simrt/choice"
@@ -233,6 +236,36 @@ func Main(h *Harness) {
 		}
 	}
 
+	// Watchdog: a run that makes no progress for a long time (a simulated task
+	// blocked for real on something the simulator does not model) is machinery
+	// trouble: dump the stacks and exit 2, never a VIOLATION.
+	progress := time.Now()
+	var progMu sync.Mutex
+	limit := 900 * time.Second
+	if v := os.Getenv("VERIF_RUN_WATCHDOG_S"); v != "" {
+		if f, err := strconv.ParseFloat(v, 64); err == nil {
+			limit = time.Duration(f * float64(time.Second))
+		}
+	}
+	go func() {
+		for {
+			time.Sleep(5 * time.Second)
+			progMu.Lock()
+			idle := time.Since(progress)
+			progMu.Unlock()
+			if idle > limit {
+				buf := make([]byte, 1<<20)
+				n := runtime.Stack(buf, true)
+				fmt.Fprintf(os.Stderr, "WATCHDOG: no run finished for %v; goroutine stacks:\n%s\n", idle, buf[:n])
+				os.Exit(2)
+			}
+		}
+	}()
+	tick := func() {
+		progMu.Lock()
+		progress = time.Now()
+		progMu.Unlock()
+	}
 	start := time.Now()
 	rep := &Report{Property: h.Property, Shard: *shard, Counters: map[string]int64{}}
 	hashes := map[uint64]struct{}{}
@@ -261,6 +294,7 @@ func Main(h *Harness) {
 		}
 	}
 	account := func(r *Run) {
+		tick()
 		rep.Steps += r.Steps
 		rep.VirtualNS += r.VirtualNS
 		for k, v := range r.Counters {
